@@ -372,6 +372,8 @@ def check_result_roundtrip(ctx, store, res, tag, n):
         return
     new = r[1]
     ctx.count('result_roundtrip:' + cls)
+    ctx.log('result', tag, cls, getattr(new, 'status', None), getattr(new, 'observed_statistic', None),
+            getattr(new, 'quantile', None))
     if type(new).__name__ != cls:
         ctx.violate('C18', 'fields', '%s:class-becomes-%s' % (cls, type(new).__name__), {'test': tag})
         return
